@@ -57,9 +57,9 @@ type ChanPlan struct {
 	// have consumed anything.
 	RecvCtx   [2]int `json:"recv_ctx,omitempty"`
 	RecvCtxUs [2]int `json:"recv_ctx_us,omitempty"`
-	// SendCtx: likewise for the senders of a side ([client side, server side]): every Send (not the
-	// opening message, not the closing one) gets a deadline; a Send that returns Cancelled / Timeout for
-	// that reason has sent nothing and is repeated with the same message.
+	// SendCtx: likewise for the senders of a side ([client side, server side]): every Send and
+	// SendAndClose, the opening one included, gets a deadline; a call that returns Cancelled / Timeout
+	// for that reason has sent nothing (and ended nothing) and is repeated with the same message.
 	SendCtx   [2]int `json:"send_ctx,omitempty"`
 	SendCtxUs [2]int `json:"send_ctx_us,omitempty"`
 }
@@ -308,7 +308,9 @@ func (r *flowRun) runChannelClient(cs *chanState, open opener) {
 
 	if cp.OpenClose {
 		// first and only operation: SendAndClose
-		r.sendOne(cs, 0, 0, func(b []byte) status.Status { return ch.SendAndClose(r.bg, b) }, "SendAndClose")
+		r.sendOne(cs, 0, 0, func(b []byte) status.Status {
+			return r.sendDeadline(cs, 0, r.bg, func(ctx async.Context) status.Status { return ch.SendAndClose(ctx, b) })
+		}, "SendAndClose")
 		r.recvLoop(cs, 1, ch, r.bg, -1, cp.RecvDelayUs[0], false)
 		ch.Free()
 		cs.cliDone = true
@@ -330,7 +332,7 @@ func (r *flowRun) runChannelClient(cs *chanState, open opener) {
 		}
 		s := s
 		g.goTask(fmt.Sprintf("ch%d-csend%d", cs.idx, s), func() {
-			if s == 1 && (scancel != nil || cp.SendCtx[0] != 0) {
+			if s == 1 && scancel != nil {
 				// the opening message (sender 0) is never abandoned half-way: a cancelled open would
 				// leave a channel the peer has never heard of
 				hWaitCond("flow.wait-open", func() bool { return cs.d[0].sendDone[0] })
@@ -344,9 +346,6 @@ func (r *flowRun) runChannelClient(cs *chanState, open opener) {
 					c = r.bg // the opening message is never abandoned: the handler must start
 				}
 				if !r.sendOne(cs, 0, k, func(b []byte) status.Status {
-					if k == 0 {
-						return ch.Send(c, b)
-					}
 					return r.sendDeadline(cs, 0, c, func(ctx async.Context) status.Status { return ch.Send(ctx, b) })
 				}, "Send") {
 					return
@@ -370,9 +369,11 @@ func (r *flowRun) runChannelClient(cs *chanState, open opener) {
 	case EndClientClose:
 		cs.endAction = "client SendAndClose"
 		if cp.ClosePayload > 0 && isX {
-			r.sendOne(cs, 0, nData, func(b []byte) status.Status { return ch.SendAndClose(r.bg, b) }, "SendAndClose")
+			r.sendOne(cs, 0, nData, func(b []byte) status.Status {
+				return r.sendDeadline(cs, 0, r.bg, func(ctx async.Context) status.Status { return ch.SendAndClose(ctx, b) })
+			}, "SendAndClose")
 		} else {
-			st := ch.SendAndClose(r.bg, nil)
+			st := r.sendDeadline(cs, 0, r.bg, func(ctx async.Context) status.Status { return ch.SendAndClose(ctx, nil) })
 			simrt.Logf("ch%d client SendAndClose(nil) -> %s", cs.idx, stName(st))
 			if !st.OK() && !r.plan.Faulty && cp.YEnd == 0 {
 				simrt.Fail("C03-close-failed", "channel %d: SendAndClose(nil) on an open channel returned %s", cs.idx, stName(st))
@@ -624,9 +625,11 @@ func (r *flowRun) handler(ctx mpx.Context, ch mpx.Channel) (ret status.Status) {
 	case EndServerClose:
 		cs.endAction = "handler SendAndClose"
 		if cp.ClosePayload > 0 && isX {
-			r.sendOne(cs, 1, nData, func(b []byte) status.Status { return ch.SendAndClose(hctx, b) }, "SendAndClose")
+			r.sendOne(cs, 1, nData, func(b []byte) status.Status {
+				return r.sendDeadline(cs, 1, hctx, func(ctx async.Context) status.Status { return ch.SendAndClose(ctx, b) })
+			}, "SendAndClose")
 		} else {
-			st := ch.SendAndClose(hctx, nil)
+			st := r.sendDeadline(cs, 1, hctx, func(ctx async.Context) status.Status { return ch.SendAndClose(ctx, nil) })
 			simrt.Logf("ch%d handler SendAndClose(nil) -> %s", cs.idx, stName(st))
 			if !st.OK() && !r.plan.Faulty && cp.YEnd == 0 {
 				simrt.Fail("C03-close-failed", "channel %d: handler SendAndClose(nil) on an open channel returned %s", cs.idx, stName(st))
